@@ -33,6 +33,9 @@ EXPLANATION = (
     'size headers are the low three bytes of a big-endian 32-bit length read after it is defined; (f) a payload '
     'frame with content always has the next bit written. Not decided: equality of arbitrary byte strings after a '
     'round trip (a value property).')
+EXPLANATION_ADDED = ('(g) writer side: every section of serialize()/serialize_frame_prefix() is written where the previous one ended and every slice assignment keeps the buffer size; pack_string has no rejecting comparison below the capacity of its length byte.')
+EXPLANATION = EXPLANATION.replace(' Not decided', ' ' + EXPLANATION_ADDED + ' Not decided', 1) \
+    if ' Not decided' in EXPLANATION else EXPLANATION + ' ' + EXPLANATION_ADDED
 ASSUMPTIONS = COMMON_ASSUMPTIONS + ['struct and cbitstruct format strings mean what their documentation says']
 
 
